@@ -145,8 +145,28 @@ pub fn h_set_clear_drain<T: Shape, const N: usize>(use_drain: bool) {
     kani::cover!(true, "reached");
 }
 
-/// Extend<T>: same as inserting one by one
-pub fn h_set_extend<T: Shape, const N: usize, const L: usize>(by_ref: bool) {
+/// an iterator that, like `filter`/`from_fn`, reports no useful size hint
+pub struct Lazy<T: Copy, const L: usize> {
+    pub items: [T; L],
+    pub pos: usize,
+}
+impl<T: Copy, const L: usize> Iterator for Lazy<T, L> {
+    type Item = T;
+    fn next(&mut self) -> Option<T> {
+        if self.pos < L {
+            self.pos += 1;
+            Some(self.items[self.pos - 1])
+        } else {
+            None
+        }
+    }
+    fn size_hint(&self) -> (usize, Option<usize>) {
+        (0, None)
+    }
+}
+
+/// Extend<T>: same as inserting one by one.  mode: 0 by value (array), 1 by reference, 2 lazy iterator
+pub fn h_set_extend<T: Shape, const N: usize, const L: usize>(mode: u8) {
     let mut s: Set<T, N> = any_set();
     let pre = smodel(&s);
     let items: [T; L] = kani::any();
@@ -168,10 +188,14 @@ pub fn h_set_extend<T: Shape, const N: usize, const L: usize>(by_ref: bool) {
         i += 1;
     }
     kani::assume(pre.len + newc <= N);
-    if by_ref {
-        s.extend(items.iter());
-    } else {
-        s.extend(items);
+    match mode {
+        0 => s.extend(items),
+        1 => s.extend(items.iter()),
+        _ => {
+            let mut src = Lazy { items, pos: 0 };
+            s.extend(&mut src);
+            assert!(src.pos == L, "C16.extend: the source is consumed to its end");
+        }
     }
     let post = smodel(&s);
     let q: T = kani::any();
